@@ -87,7 +87,7 @@ DEFAULT_PROFILE = dict(
     p_extra=0.6, p_interleave_ns=0.15, p_attrs_op=0.12, label_plain=False, qname_literal=True,
     custom_datatypes=True, p_record_ref=0.2, p_conv=0.15, p_multi_value=0.25, p_prov_class_type=0.3,
     mandatory_args=False, bare_relations=False, uris=("http://x.org/y", "urn:a:b", "http://x.org/a b", "mailto:a@b",
-                                                       "http://ex.org/e1", "x", "http://x.org/é"),
+                                                       "http://ex.org/e1", "x", "http://x.org/é", "prov:looks-like-a-name", "ex:also"),
     tz_minutes=(None, None, 0, 60, -300, 330, 765, -720, 840), empty_prefix_qn=0.08,
 )
 
